@@ -15,8 +15,15 @@ type verifW struct {
 func (w *verifW) u8(v uint8)   { w.b[w.o] = v; w.o++ }
 func (w *verifW) u16(v uint16) { w.u8(uint8(v >> 8)); w.u8(uint8(v)) }
 func (w *verifW) u32(v uint32) { w.u16(uint16(v >> 16)); w.u16(uint16(v)) }
+func (w *verifW) bytes(b []byte) {
+	for i := range b {
+		w.u8(b[i])
+	}
+}
 
 type verifTpl struct {
+	fd         verifField // the decoy template's only field: octetArray, 6 octets
+	decoy      uint16
 	tid        uint16
 	f1, f2     verifField
 	ent1, ent2 bool
@@ -27,8 +34,12 @@ func verifMsgTemplate() verifTpl {
 	var t verifTpl
 	t.tid = verifNondetU16()
 	verifAssume(t.tid > 255)
+	t.decoy = verifNondetU16()
+	verifAssume(verifAll(t.decoy > 255, t.decoy != t.tid))
 	t.f1 = verifArbField(Uint32, 0)
 	t.f2 = verifArbField(String, 2)
+	t.fd = verifArbField(OctetArray, 0)
+	verifAssume(verifAll(t.fd.spec.Length == 6, t.fd.spec.EnterpriseNo == 0))
 	// enterprise bit on the wire iff the enterprise number is non-zero (the decoder zeroes it otherwise)
 	t.ent1 = verifCase(2) == 1
 	if !t.ent1 {
@@ -38,16 +49,22 @@ func verifMsgTemplate() verifTpl {
 	return t
 }
 
+// the template set carries TWO template records: a decoy (another id, one unsigned16 field)
+// and then the real one, so that per-record state of the template parser matters
 func (t verifTpl) tplSetLen() int {
 	if t.ent1 {
-		return 4 + 4 + 8 + 4
+		return 4 + 8 + 4 + 8 + 4
 	}
-	return 4 + 4 + 4 + 4
+	return 4 + 8 + 4 + 4 + 4
 }
 
 func (t verifTpl) writeTplSet(w *verifW, pad int) {
 	w.u16(2)
 	w.u16(uint16(t.tplSetLen() + pad))
+	w.u16(t.decoy)
+	w.u16(1)
+	w.u16(t.fd.spec.ElementID)
+	w.u16(6)
 	w.u16(t.tid)
 	w.u16(2)
 	if t.ent1 {
@@ -110,10 +127,12 @@ func verifCheckRec(fs []DecodedField, t verifTpl, r verifRec) {
 func VerifIPFIXMessageOne() {
 	t := verifMsgTemplate()
 	r1, r2 := verifArbRec(), verifArbRec()
+	r3 := verifRec{v: verifNondetU32(), s: verifNondetBytes(1), l: 1}
 	pad := verifCase(4)
 	tpad := 4 * verifCase(2)
-	dlen := 4 + r1.len() + r2.len() + pad
-	total := 16 + t.tplSetLen() + tpad + dlen
+	dlen := 4 + r1.len() + r2.len() + r3.len() + pad
+	dec := verifNondetBytes(6) // one record of the decoy template, in a data set of its own
+	total := 16 + t.tplSetLen() + tpad + dlen + 10
 	w := &verifW{b: make([]byte, total)}
 	exp, seq, dom := verifWriteHeader(w, total)
 	t.writeTplSet(w, tpad)
@@ -121,21 +140,73 @@ func VerifIPFIXMessageOne() {
 	w.u16(uint16(dlen))
 	r1.write(w)
 	r2.write(w)
+	r3.write(w)
 	for i := 0; i < pad; i++ {
 		w.u8(0)
 	}
-	addr := verifAddr()
+	w.u16(t.decoy)
+	w.u16(10)
+	w.bytes(dec)
+	// two shards instead of 32 (the sharding arithmetic is C04's subject; here every cache
+	// access with a symbolic key would fork over all shards)
+	addr := net.IP{198, 51, 100, 77} // (the exporter address plays no role here; C04 covers it)
+	shardNo = 2
 	m := verifNewCache()
-	_, h1 := m.getShard(t.tid, addr)
-	verifAssume(int(h1%32) == verifSplit(verifParam("shards", 32)))
+	verifAssume(int(verifRefHash(addr, t.tid)%2) == verifSplit(2))
+	if verifKnown("C04-hash-collision") {
+		verifAssume(verifRefHash(addr, t.tid) != verifRefHash(addr, t.decoy))
+	}
 	msg, err := NewDecoder(addr, w.b).Decode(m)
 	verifAssert(err == nil, "well-formed message decodes without error")
 	verifAssert(msg != nil, "well-formed message yields a message")
 	h := msg.Header
 	verifAssert(verifAll(h.Version == 10, int(h.Length) == total, h.ExportTime == exp, h.SequenceNo == seq, h.DomainID == dom), "message header fields")
-	verifAssert(len(msg.DataSets) == 2, "exactly one entry per data record")
+	verifAssert(len(msg.DataSets) == 4, "exactly one entry per data record")
 	verifCheckRec(msg.DataSets[0], t, r1)
 	verifCheckRec(msg.DataSets[1], t, r2)
+	verifCheckRec(msg.DataSets[2], t, r3)
+	// the record of the first template of the template set (decoded with ITS template)
+	verifAssert(len(msg.DataSets[3]) == 1, "decoy record has its one field")
+	verifAssert(msg.DataSets[3][0].ID == t.fd.entry.FieldID, "decoy record: element id")
+	dv, okd := msg.DataSets[3][0].Value.([]byte)
+	verifAssert(okd, "decoy record: octetArray value")
+	verifAssert(verifBytesEq(dv, dec), "decoy record: octets")
+	verifReach("end")
+}
+
+// (C04) a template re-announced with another definition in the same message is the one in
+// force for the data set that follows: first definition = one unsigned32 field, second = the
+// two-field template; the record has both fields.
+func VerifIPFIXReannounce() {
+	t := verifMsgTemplate()
+	r1 := verifArbRec()
+	old := 4 + 8 // set header + template record with one field
+	dlen := 4 + r1.len()
+	total := 16 + old + t.tplSetLen() + dlen
+	w := &verifW{b: make([]byte, total)}
+	verifWriteHeader(w, total)
+	w.u16(2)
+	w.u16(uint16(old))
+	w.u16(t.tid)
+	w.u16(1)
+	w.u16(t.f1.spec.ElementID)
+	w.u16(4)
+	t.writeTplSet(w, 0)
+	w.u16(t.tid)
+	w.u16(uint16(dlen))
+	r1.write(w)
+	verifAssume(!t.ent1)
+	addr := net.IP{192, 0, 2, 9}
+	shardNo = 2
+	m := verifNewCache()
+	verifAssume(int(verifRefHash(addr, t.tid)%2) == verifSplit(2))
+	if verifKnown("C04-hash-collision") {
+		verifAssume(verifRefHash(addr, t.tid) != verifRefHash(addr, t.decoy))
+	}
+	msg, err := NewDecoder(addr, w.b).Decode(m)
+	verifAssert(verifAll(err == nil, msg != nil), "message with a re-announced template decodes")
+	verifAssert(len(msg.DataSets) == 1, "one record")
+	verifCheckRec(msg.DataSets[0], t, r1)
 	verifReach("end")
 }
 
@@ -162,15 +233,17 @@ func VerifIPFIXMessageTwo() {
 
 	a := net.IP(verifNondetBytes(4))
 	b := net.IP(verifNondetBytes(4))
+	shardNo = 2
 	m := verifNewCache()
-	_, h1 := m.getShard(t.tid, a)
-	s := verifSplit(verifParam("shards", 32))
-	verifAssume(int(h1%32) == s)
-	_, h2 := m.getShard(did, b)
-	verifAssume(verifAny((h2-h1)%32 == 0, (h2-h1)%32 == 1))
+	verifAssume(int(verifRefHash(a, t.tid)%2) == verifSplit(2))
 	same := verifAll(verifAddrEq(a, b), did == t.tid)
-	if !same && verifKnown("C04-hash-collision") {
-		verifAssume(verifRefHash(a, t.tid) != verifRefHash(b, did))
+	// the first datagram also announces the decoy template: data under that id is not "unknown"
+	verifAssume(!verifAll(verifAddrEq(a, b), did == t.decoy))
+	if verifKnown("C04-hash-collision") {
+		verifAssume(verifRefHash(a, t.tid) != verifRefHash(a, t.decoy))
+		if !same {
+			verifAssume(verifAll(verifRefHash(a, t.tid) != verifRefHash(b, did), verifRefHash(a, t.decoy) != verifRefHash(b, did)))
+		}
 	}
 	msg1, err1 := NewDecoder(a, w1.b).Decode(m)
 	verifAssert(verifAll(err1 == nil, msg1 != nil), "template-only message decodes")
